@@ -62,6 +62,8 @@ def _program(draw):
     # consistency: equal defaults for a shared parameter must compare equal at construction: fresh [] == [] holds
     bindable = [p for p in pure if p not in mut_params]
     bind = {p: "obj" for p in draw(gen.subset(bindable, 0.4))}
+    keep_bound_defaults = prob(draw, 0.4)  # (flat programs only, decided below: an OUTER binding on a defaulted parameter is legal)
+    saved_defaults = [dict(n["defaults"]) for n in topo]
     for n in topo:  # a bound parameter carries no signature default here (an inner binding next to an outside default is rejected by design)
         n["defaults"] = {p: v for p, v in n["defaults"].items() if p not in bind}
         n["params"] = [p for p in n["params"] if p not in n["defaults"]] + [p for p in n["params"] if p in n["defaults"]]
@@ -69,6 +71,16 @@ def _program(draw):
     if prob(draw, 0.5):
         nested = {"a": draw(st.integers(0, len(topo) - 1)), "len": draw(st.integers(1, 3)), "inner_bind": prob(draw, 0.7), "select_out": draw(st.booleans())}
         # (several inner nodes may mutate the same defaulted input: each gets its own copy, as in the flat graph - F29, fixed)
+    flat_select = None
+    if nested is None and keep_bound_defaults:
+        # flat program: bound parameters keep their (immutable) signature default - the binding wins - and a graph-level selection
+        # leaves some nodes outside (a selection does not stop them from running; they still get the bound OBJECT)
+        for n, d0 in zip(topo, saved_defaults):
+            n["defaults"] = {**{p: v for p, v in d0.items() if p in bind and not (isinstance(v, dict) and "__mut__" in v)}, **n["defaults"]}
+            n["params"] = [p for p in n["params"] if p not in n["defaults"]] + [p for p in n["params"] if p in n["defaults"]]
+        outs_all = [o for n in topo for o in n["outs"]]
+        if len(outs_all) >= 2:
+            flat_select = draw(st.lists(st.sampled_from(outs_all), min_size=1, max_size=max(1, len(outs_all) - 1), unique=True))
     if nested is not None and prob(draw, 0.4):
         # the nested graph is a MAPPING node over a plain input of its own (two items per run; every item starts from a pristine
         # default - F29, fixed); a mutable-default input that only its own nodes take may be renamed on the wrapper
@@ -88,7 +100,7 @@ def _program(draw):
             if n["mutates"]:
                 n["params"] = ["unp"] + n["params"]
                 n["cache"] = True
-    return {"topo": topo, "bind": bind, "nested": nested, "order": draw(st.permutations(list(range(len(topo)))))}
+    return {"topo": topo, "bind": bind, "nested": nested, "order": draw(st.permutations(list(range(len(topo))))), "flat_select": flat_select}
 
 
 class Prog:
@@ -153,6 +165,8 @@ class Prog:
         outer = {p: o for p, o in bound_objs.items() if p not in inner_bound}
         if outer:
             g = g.bind(**outer)
+        if select is None and spec.get("flat_select") and not spec["nested"]:
+            select = list(spec["flat_select"])
         if select:
             g = g.select(*select)
         return g
